@@ -130,7 +130,7 @@ func init() {
 	}
 	impls["pseudo.compare"] = func(a []string) string { return itoa(semver.Compare(unhx(a[0]), unhx(a[1]))) }
 	register(&Prop{ID: "C18", Gen: c18Gen, Oracle: c18Oracle,
-		Rule: "PseudoVersion on (major, base, instant, revision): bases from the semver grammar incl. prereleases, shortened forms, +incompatible and other build metadata, patch numbers of 1-40 digits with all-nines carries and 10…0 borrows; instants across years 1-9999 UTC incl. range boundaries, leap days, year ends, the 1970 epoch and negative Unix seconds (a few outside the range), the Go side in a hash-derived zone with hash-derived nanoseconds; revisions alnum 1-40; the parsers on generated pseudo-versions, grammar-built look-alikes (invalid dates, 13/15-digit stamps, build parts, nested -0. forms) and one-byte mutations; non-trivial = base valid or empty and revision alnum, or parser input is a pseudo-version or one mutation from one; distinct by op line"})
+		Rule: "PseudoVersion on (major, base, instant, revision): bases from the semver grammar incl. prereleases, shortened forms, +incompatible and other build metadata (grammar-built build identifiers incl. digits-only ones with leading zeroes, where build and prerelease grammars differ), patch numbers of 1-40 digits with all-nines carries and 10…0 borrows; instants across years 1-9999 UTC incl. range boundaries, leap days, year ends, the 1970 epoch and negative Unix seconds (a few outside the range), the Go side in a hash-derived zone with hash-derived nanoseconds; revisions alnum 1-40; the parsers on generated pseudo-versions, grammar-built look-alikes (invalid dates, 13/15-digit stamps, build parts, nested -0. forms) and one-byte mutations; non-trivial = base valid or empty and revision alnum, or parser input is a pseudo-version or one mutation from one; distinct by op line"})
 }
 
 // ---- generators
@@ -163,11 +163,70 @@ func c18GenPatch(r *Rand) string {
 // c18GenBase returns a base version for PseudoVersion and whether it is valid-or-empty.
 func c18GenBase(r *Rand) (string, bool) {
 	v, _ := c18GenBase0(r)
-	return v, v == "" || semver.IsValid(v) // the shared grammar generator occasionally yields a leading-zero numeric identifier
+	// the shared grammar generator occasionally yields a leading-zero numeric prerelease identifier.
+	// Validity is decided by the documented grammar (c18ParseSpec), not by asking the implementation.
+	_, ok := c18ParseSpec(v)
+	return v, v == "" || ok
+}
+
+// c18GenBuildIdent: one identifier of the BUILD grammar, [0-9A-Za-z-]+ .  Input class added for the place
+// where the build grammar and the prerelease grammar differ: a digits-only build identifier MAY have leading
+// zeroes (v1.0.0+001, +build.007, +2024.01.05) whereas a prerelease one may not.  Identifiers drawn uniformly
+// from [0-9A-Za-z-] are almost never digits-only, two or more long and zero-led, so the class was absent.
+func c18GenBuildIdent(r *Rand) string {
+	switch r.Intn(9) {
+	case 0:
+		return "0" + r.Bytes(1+r.Intn(5), digits) // numeric with a leading zero
+	case 1:
+		return strings.Repeat("0", 2+r.Intn(4)) // all zeroes, two or more
+	case 2:
+		return r.Pick([]string{"0", "00", "01", "001", "007", "010", "0123", "05", "09", "0-", "-0", "-01", "0a", "00a", "01-", "0-1",
+			"incompatible", "sha", "build", "exp", "meta"})
+	case 3:
+		return genNum(r) // numeric without leading zero (1-40 digits)
+	case 4:
+		return r.Bytes(1+r.Intn(8), digits) // any digit string
+	case 5:
+		return r.Bytes(1+r.Intn(4), identAlpha)
+	case 6:
+		return r.Bytes(1+r.Intn(3), digits) + r.Bytes(1, "abc-") + r.Bytes(r.Intn(3), digits)
+	}
+	return r.Bytes(1+r.Intn(6), digits+identAlpha)
+}
+
+// c18GenBuild: "+" and 1-4 dot-separated build identifiers.
+func c18GenBuild(r *Rand) string {
+	ids := make([]string, 1+r.Intn(4))
+	for i := range ids {
+		ids[i] = c18GenBuildIdent(r)
+	}
+	return "+" + strings.Join(ids, ".")
+}
+
+// c18GenPreIdent: a prerelease identifier that is valid by construction (a digits-only one has no leading zero).
+func c18GenPreIdent(r *Rand) string {
+	for {
+		id := genIdent(r)
+		if !c18SpecBadNum(id) {
+			return id
+		}
+	}
 }
 
 func c18GenBase0(r *Rand) (string, bool) {
-	switch r.Intn(16) {
+	switch r.Intn(19) {
+	case 13: // release base with grammar-built build metadata (incl. zero-led numeric identifiers)
+		return "v" + genNum(r) + "." + genNum(r) + "." + c18GenPatch(r) + c18GenBuild(r), true
+	case 14: // prerelease base with grammar-built build metadata
+		v := "v" + genNum(r) + "." + genNum(r) + "." + c18GenPatch(r) + "-" + c18GenPreIdent(r)
+		for k := r.Intn(3); k > 0; k-- {
+			v += "." + c18GenPreIdent(r)
+		}
+		return v + c18GenBuild(r), true
+	case 15:
+		return r.Pick([]string{"v1.2.3+001", "v1.2.3+00", "v1.2.3+0", "v1.2.3+0a", "v1.2.9+2024.01.05", "v1.2.3+build.007", "v1.2.3-rc.1+00",
+			"v1.0.0-pre+exp.sha.0123", "v0.0.0+00.00", "v1.2.3-0+0", "v1.2.3-0+00", "v1.2.3-a.0+0.00.000", "v2.0.0+01.incompatible",
+			"v1.2.3+-", "v1.2.3+--.-", "v1.2.3---+--"}), true
 	case 0, 1:
 		return "", true
 	case 2:
@@ -349,6 +408,8 @@ func c18GenLookalike(r *Rand) string {
 		v += "+a-b.c-d"
 	case 3:
 		v += r.Pick([]string{"+", "+a..b", "+a+b", "+é", "\n", "+a\n", "-", "."})
+	case 4:
+		v += c18GenBuild(r) // build grammar incl. zero-led numeric identifiers
 	}
 	return v
 }
@@ -372,6 +433,10 @@ var c18Tricky = []string{
 	"v1.2.3-pre.1.20060102150405-abc", "v1.2.3-pre.0.20060102150405-abc.0", "v1.2.3-0.20060102150405-abc.1",
 	"v2.0.0-20060102150405-abc", "v2.0.0-0.20060102150405-abc", "v2.1.0-0.20060102150405-abc", "v2.0.1-0.20060102150405-abc",
 	"v1.2.99999999999999999999999999999999999999990-0.20060102150405-abc", "v1.2.100000000000000000000000000000000000000-0.20060102150405-abc",
+	// build suffix with zero-led numeric identifiers (allowed in build metadata, not in a prerelease) on each of the three forms
+	"v0.0.0-20060102150405-abc+00", "v1.2.4-0.20060102150405-abc+001", "v1.2.3-pre.0.20060102150405-abc+build.007",
+	"v1.2.10-0.20060102150405-abc+2024.01.05", "v1.2.4-0.20060102150405-abc+0", "v1.2.4-0.20060102150405-abc+0a",
+	"v1.2.4-00.20060102150405-abc+1", "v1.2.3-pre.00.20060102150405-abc",
 }
 
 func c18EmitParsers(g *Gen, v string, nt bool, tag string) {
@@ -487,31 +552,117 @@ func c18Gen(g *Gen, n int) {
 
 // ---- oracle: the property, on the implementation alone
 
-// c18NextRelease: for a release base vX.Y.Z the next release vX.Y.(Z+1); for a prerelease base
-// vX.Y.Z-pre the release vX.Y.Z it precedes (pseudo.go forms (2)-(5)).  Computed independently
-// of pseudo.go (math/big).
-func c18NextRelease(older string) string {
-	c := semver.Canonical(older)
-	if p := semver.Prerelease(c); p != "" {
-		return strings.TrimSuffix(c, p)
+// The base-version grammar, written out from the documentation of package semver
+// (vMAJOR[.MINOR[.PATCH[-PRERELEASE][+BUILD]]]) and Semantic Versioning 2.0.0 §2, §9, §10, independently of
+// semver.go: numeric fields are "0" or digits without leading zero; prerelease and build are dot-separated
+// non-empty identifiers over [0-9A-Za-z-]; a digits-only PRERELEASE identifier has no leading zero, a BUILD
+// identifier has no such restriction; the shortened forms vX and vX.Y carry neither prerelease nor build.
+// The oracle takes its domain ("for all valid base versions") and its expectations (canonical base, build
+// suffix, next release) from here.  It used to take them from the implementation's own
+// semver.IsValid/Canonical/Build, so a base the code wrongly refuses silently dropped out of the domain.
+type c18Spec struct {
+	major string // "vX"
+	canon string // vX.Y.Z[-PRERELEASE]
+	build string // "" or +BUILD
+	next  string // release base: vX.Y.(Z+1); prerelease base: vX.Y.Z (pseudo.go forms (2)-(5)); math/big, not incDecimal
+	pre   bool
+}
+
+func c18SpecNum(s string) bool {
+	if s == "" || (len(s) > 1 && s[0] == '0') {
+		return false
 	}
-	i := strings.LastIndexByte(c, '.')
-	z, ok := new(big.Int).SetString(c[i+1:], 10)
-	if !ok {
-		return ""
+	for i := 0; i < len(s); i++ {
+		if s[i] < '0' || s[i] > '9' {
+			return false
+		}
 	}
-	return c[:i+1] + z.Add(z, big.NewInt(1)).String()
+	return true
+}
+
+// c18SpecBadNum: digits only, two or more, leading zero.
+func c18SpecBadNum(s string) bool {
+	if len(s) < 2 || s[0] != '0' {
+		return false
+	}
+	for i := 0; i < len(s); i++ {
+		if s[i] < '0' || s[i] > '9' {
+			return false
+		}
+	}
+	return true
+}
+
+func c18SpecIdents(s string, prerelease bool) bool {
+	for _, id := range strings.Split(s, ".") {
+		if id == "" || (prerelease && c18SpecBadNum(id)) {
+			return false
+		}
+		for i := 0; i < len(id); i++ {
+			c := id[i]
+			if !('0' <= c && c <= '9' || 'a' <= c && c <= 'z' || 'A' <= c && c <= 'Z' || c == '-') {
+				return false
+			}
+		}
+	}
+	return true
+}
+
+func c18ParseSpec(v string) (c18Spec, bool) {
+	var sp c18Spec
+	if len(v) < 2 || v[0] != 'v' {
+		return sp, false
+	}
+	core, pre, build := v[1:], "", ""
+	if i := strings.IndexByte(core, '+'); i >= 0 {
+		core, build = core[:i], core[i:]
+		if !c18SpecIdents(build[1:], false) {
+			return sp, false
+		}
+	}
+	if i := strings.IndexByte(core, '-'); i >= 0 {
+		core, pre = core[:i], core[i:]
+		if !c18SpecIdents(pre[1:], true) {
+			return sp, false
+		}
+	}
+	f := strings.Split(core, ".")
+	if len(f) > 3 || (len(f) < 3 && (pre != "" || build != "")) {
+		return sp, false
+	}
+	for _, x := range f {
+		if !c18SpecNum(x) {
+			return sp, false
+		}
+	}
+	for len(f) < 3 {
+		f = append(f, "0")
+	}
+	sp.major = "v" + f[0]
+	rel := "v" + f[0] + "." + f[1] + "."
+	sp.canon = rel + f[2] + pre
+	sp.build = build
+	sp.pre = pre != ""
+	if sp.pre {
+		sp.next = rel + f[2]
+	} else {
+		z, _ := new(big.Int).SetString(f[2], 10)
+		sp.next = rel + z.Add(z, big.NewInt(1)).String()
+	}
+	return sp, true
 }
 
 func c18Oracle(g *Gen, n int) {
 	for i := 0; i < n; i++ {
 		older, _ := c18GenBase(g.Rand)
-		for older != "" && !semver.IsValid(older) {
+		spec, specOK := c18ParseSpec(older)
+		for older != "" && !specOK { // the domain is decided by the grammar, never by the implementation
 			older = genValidVersion(g.Rand)
+			spec, specOK = c18ParseSpec(older)
 		}
 		major := ""
 		if older != "" {
-			major = semver.Major(older)
+			major = spec.major
 			if g.Chance(10) {
 				major = "v" + genNum(g.Rand) // ignored when there is a base
 			}
@@ -525,14 +676,22 @@ func c18Oracle(g *Gen, n int) {
 		op := "pseudo.pseudoversion " + hx(major) + " " + hx(older) + " " + i64toa(secs) + " " + hx(rev)
 		info := "major=" + major + " older=" + older + " t=" + t.Format(time.RFC3339Nano) + " rev=" + rev
 		pv := module.PseudoVersion(major, older, t, rev)
-		canon := semver.Canonical(older)
 		switch {
 		case older == "":
 			g.Case("nobase")
-		case semver.Prerelease(canon) != "":
+		case spec.pre:
 			g.Case("prerelease-base")
 		default:
 			g.Case("release-base")
+		}
+		if spec.build != "" {
+			g.Case("base-with-build")
+			for _, id := range strings.Split(spec.build[1:], ".") {
+				if c18SpecBadNum(id) {
+					g.Case("base-with-build:zero-led-numeric-identifier")
+					break
+				}
+			}
 		}
 		// valid version, recognised as a pseudo-version
 		if !semver.IsValid(pv) {
@@ -544,7 +703,7 @@ func c18Oracle(g *Gen, n int) {
 		// round trip: canonical base with build suffix, time truncated to seconds in UTC, revision
 		wantBase := ""
 		if older != "" {
-			wantBase = canon + semver.Build(older)
+			wantBase = spec.canon + spec.build
 		}
 		if b, err := module.PseudoVersionBase(pv); err != nil || b != wantBase {
 			g.Fail("PseudoVersionBase does not recover the canonical base with build suffix", info+" pv="+pv+" got="+b, op, "pseudo.base "+hx(pv))
@@ -560,11 +719,11 @@ func c18Oracle(g *Gen, n int) {
 			if semver.Compare(older, pv) >= 0 {
 				g.Fail("pseudo-version does not sort strictly after its base", info+" pv="+pv, op, "pseudo.compare "+hx(older)+" "+hx(pv))
 			}
-			next := c18NextRelease(older)
-			if next == "" || !semver.IsValid(next) || semver.Compare(pv, next) >= 0 {
+			next := spec.next
+			if !semver.IsValid(next) || semver.Compare(pv, next) >= 0 {
 				g.Fail("pseudo-version does not sort strictly before the next release", info+" pv="+pv+" next="+next, op, "pseudo.compare "+hx(pv)+" "+hx(next))
 			}
-			if semver.Prerelease(canon) == "" && semver.Compare(older, next) >= 0 {
+			if !spec.pre && semver.Compare(older, next) >= 0 {
 				g.Fail("oracle self-check: base not below its next release", info+" next="+next)
 			}
 		} else {
